@@ -22,9 +22,35 @@ LEVEL_NOTE = (
 )
 TECHNIQUE = "Lean 4 + Mathlib proof over R of regenerated numeric code (T2) + differential correspondence at Float + numeric law checks"
 LEAN_MODULES = ["Gv.Props.C18"]
-REQUIRED_THEOREMS = []  # filled in below
+REQUIRED_THEOREMS = ["Gv.Props.C18." + n for n in [
+    # generic
+    "eigen_assembly", "eigen_assembly_limit", "setLength_entry_within_floor",
+    # JC (closed form + eigen-system)
+    "jc_rows_sum_one", "jc_entries_in_unit_interval", "jc_P_zero_eq_id", "jc_semigroup", "jc_detailed_balance",
+    "jc_limit_is_stationary", "jc_eigen_LR", "jc_eigen_RDL", "jc_analytic_eq_eigen", "jc_eq_exp_of_rate_matrix",
+    # K2P
+    "k2p_rows_sum_one", "k2p_entries_in_unit_interval", "k2p_P_zero_eq_id", "k2p_semigroup", "k2p_detailed_balance",
+    "k2p_limit_is_stationary", "k2p_eigen_LR", "k2p_eigen_RDL", "k2p_analytic_eq_eigen", "k2p_eq_exp_of_rate_matrix",
+    # F84 (closed-form eigen-system, symbolic)
+    "f84_eigen_LR", "f84_eigen_RDL", "f84_laws", "f84_limit_is_stationary",
+    # F81 / TN93 / GTR rate matrices
+    "f81_Q_eq_textbook", "tn93_Q_eq_textbook", "gtr_Q_eq_textbook", "gtr_Q_rows_reversible_meanrate",
+    "f81_is_gtr", "tn93_is_gtr", "f81_laws_of_eigen_system", "tn93_laws_of_eigen_system", "gtr_laws_of_eigen_system",
+    # protein
+    "prot_Q_rows_sum_zero", "prot_Q_reversible", "prot_mean_rate_one", "prot_Q_eq_textbook",
+    "prot_laws_of_eigen_system", "protein_tables_ok", "prot_tables_rate_matrix"]]
 TIMEOUT = 10.0
-PARTIAL = []
+PARTIAL = [
+    "f81_laws_of_eigen_system / tn93_laws_of_eigen_system / gtr_laws_of_eigen_system / prot_laws_of_eigen_system: every law of P(t) "
+    "(= exp(tQ), stochastic, P(0)=I, semigroup, detailed balance) is proved for ANY eigen-system with L*R=I and R*D*L=Q; that gonum's "
+    "Eigen+Inverse return such a system is not proved (external call) - residuals are measured on every checked case",
+    "limit = stationary frequencies for F81/TN93/GTR/protein: only via eigen_assembly_limit, conditional on the numeric eigenvalues "
+    "(one zero, others negative); checked numerically per case through a rigorous reversible-chain bound",
+    "protein: theorems are about the hand-written Lean model of the InitModel loops (lean/Gv/Model/ProtModel.lean), validated against the "
+    "real code by the correspondence run; the exchangeability/frequency tables themselves are regenerated (T1) and kernel-checked",
+    "Pij.SetLength: hand-written model (lean/Gv/Model/Pij.lean), tied to exp(tQ) by setLength_entry_within_floor up to the DBL_MIN floor",
+    "floating point: all theorems are over the reals; rounding, overflow and math.Exp are trusted (correspondence tolerance 1e-9)",
+]
 TRUSTED = [
     "float64 rounding, math.Exp and Lean's Float (libm) are not modelled: correspondence uses class equality + relative tolerance 1e-9 (+1e-13 absolute)",
     "gonum mat.Eigen / Dense.Inverse (F81, TN93, GTR, protein) are an external call: residuals |L*R-I|, |R*D*L-Q| measured per case, tolerance 1e-9",
@@ -129,6 +155,23 @@ def gen(rng, tier):
         for u in users:
             for s, t in pairs(rng, 3 if quick else 8, "protu%d" % idx):
                 yield mk("prot", [idx] + list(u), s, t, True, "prot-userfreq")
+
+
+def check(tier, seed):
+    """generic flow, with the memoising axiom audit (Audit/AuditMemo.lean: same output as Audit/Audit.lean,
+    6 s instead of 60 s on this Mathlib-importing module)"""
+    import sys
+    from driver import common
+
+    def audit_memo(modules):
+        rc, out = common.run(["lake", "env", "lean", "--run", "Audit/AuditMemo.lean"] + modules, cwd=common.LEAN, timeout=1200)
+        ths = []
+        for m in common.re.finditer(r"THEOREM (\S+) (\S+) axioms=\[(.*?)\] (OK|FORBIDDEN)", out):
+            axs = [a.strip() for a in m.group(3).split(",") if a.strip()]
+            ths.append({"module": m.group(1), "name": m.group(2), "axioms": axs, "ok": m.group(4) == "OK"})
+        return rc, ths, out
+    common.audit = audit_memo
+    return common.generic_check(sys.modules[__name__], tier, seed)
 
 
 def _sections(impl):
